@@ -66,6 +66,12 @@ ChainFields == { <<F(AKey, "s"), F(ABin("+", AName("s"), AStr(xx)), "t"), F(ABin
 Selects == { Stmt("select", <<>>, w, <<>>, <<>>) : w \in Wheres }
            \cup { Stmt("select", f, w, <<>>, <<>>) : f \in ChainFields, w \in {P1} }
            \cup { Stmt("select", <<F(AKey, ""), F(AIdx(AIdx(Call1("json", AVal), AStr(a)), AStr(bb)), "jj")>>, P1, <<>>, <<>>) }
+           \* aggregates: a fault inside an aggregate's argument is a fault like any other
+           \cup { Stmt("select", <<F(Call1("count", AInt(1)), ""), F(Call1("sum", Call1("int", AVal)), "s"), F(ACall("group_concat", <<Call1("upper", AKey), AStr(Comma)>>), "g")>>, P1, <<>>, <<>>),
+                   Stmt("select", <<F(Call1("max", Call1("strlen", ABin("+", AKey, AStr(xx)))), ""), F(Call1("avg", Call1("float", AVal)), "")>>, P7, <<>>, <<>>) }
+           \* aggregates: a fault inside an aggregate's argument is a fault like any other
+           \cup { Stmt("select", <<F(Call1("count", AInt(1)), ""), F(Call1("sum", Call1("int", AVal)), "s"), F(ACall("group_concat", <<Call1("upper", AKey), AStr(Comma)>>), "g")>>, P1, <<>>, <<>>),
+                   Stmt("select", <<F(Call1("max", Call1("strlen", ABin("+", AKey, AStr(xx)))), ""), F(Call1("avg", Call1("float", AVal)), "")>>, P7, <<>>, <<>>) }
            \* one name used three and four times in WHERE (every use typed alike, in both iteration modes)
            \cup { Stmt("select", <<F(AKey, ""), F(Call1("strlen", AVal), "v")>>, ABin("&", ABin("&", ABin(">", AName("v"), AInt(0)), ABin("<", AInt(1), ABin("*", AName("v"), AInt(2)))), ABin("<", AName("v"), AInt(8))), <<>>, <<>>),
                    Stmt("select", <<F(AKey, "k"), F(AVal, "")>>, ABin("&", ABin("&", ABin(">", AName("k"), AStr(<<>>)), ABin("!=", Call1("upper", AName("k")), AStr(AB))), ABin("|", ABin("^=", AName("k"), AStr(a)), ABin("=", ABin("+", AName("k"), AStr(xx)), AStr(xx)))), <<>>, <<>>) }
